@@ -7,7 +7,8 @@ app components [\\w-]+, instance id #%010d, uniqueid 13 characters, endpoint
 names [a-z]+ / ports, identity 0..9.
 """
 
-HOSTS = ('hosta', 'hostb')
+# one host name is a proper prefix of the other on purpose (hostname comparisons must be exact)
+HOSTS = ('node1', 'node10')
 
 SHAPES = {
     # host index of successive containers of the instance
